@@ -3,6 +3,18 @@
 REFLECT = "Go reflect / runtime semantics as specified in the model (DESIGN.md 3.4)"
 
 PROPS = {
+    "C08": {
+        "gens": [],
+        "lean": "Anko.Props.C08",
+        "streams": [{"name": "control", "n_quick": 2500, "n_thorough": 40000},
+                    {"name": "vm", "n_quick": 2000, "n_thorough": 40000}],
+        "trusted": ["the interpreter model lean/Anko/Model/Eval.lean mirrors vm/*.go on fragment F0 (validated differentially each run)",
+                    "reference evaluator of the control stream (harness, independent of the model)"],
+        "assumptions": ["fragment F0; map iteration order is not modelled (for-in over maps with more than one entry is not generated)"],
+        "partial": ["return_ends_invocation and signal propagation are proved for paths without `try` (finding #13: try catches ErrBreak/ErrContinue/ErrReturn, "
+                    "pinned by the repository's TestTry; witness theorem try_catches_return_witness)",
+                    "cfor_consumes_break_continue is stated for loops without an init statement"],
+    },
     "C04": {
         "gens": [],
         "lean": "Anko.Props.C04",
@@ -64,6 +76,19 @@ PROPS = {
 
 # Texts for MANIFEST.json (level_claimed.text, level_note, technique, design_ref)
 MANIFEST_TEXT = {
+    "C08": {
+        "text": "Machine-checked proofs (Lean 4) over the interpreter model: by induction on fuel, expressions (incl. calls) never yield a "
+                "break/continue/return sentinel, and each of the four loop forms consumes break/continue of its body whatever the body is "
+                "(so a signal can only reach the innermost enclosing loop); statement lists stop at the first signal/error; return ends the "
+                "invocation with exactly the returned value; if/else-if/switch run the first matching branch only; for-in visits in index "
+                "order; the C-style loop runs its post expression after continue; truthiness table. Stated for paths without `try` "
+                "(known finding #13, witness theorem proved). Correspondence: thousands of structured programs through model and "
+                "interpreter; oracle: an independent reference evaluator in the harness predicts the probe trace.",
+        "note": "Trusted: Lean kernel; fidelity of the interpreter model (differential, 0 disagreements required); the harness reference "
+                "evaluator; fragment F0.",
+        "technique": "Lean 4 proof (induction on fuel, grind) over an executable interpreter model + differential correspondence",
+        "design_ref": "DESIGN.md section 6 (C08)",
+    },
     "C04": {
         "text": "Machine-checked proof (Lean 4, mutual induction on fuel over all 28 functions of the interpreter model) that EVERY statement and "
                 "expression restores the scope pointer on EVERY exit path (normal, break/continue/return, errors caught or not, interruption) - "
